@@ -179,6 +179,13 @@ def bounded(tier, seed):
     n = 0
     strings = [''.join(t) for k in range(0, L + 1) for t in itertools.product(alpha, repeat=k)]
     strings += ['a.' * 127 + 'a', 'a.' * 127 + 'ab', ':1.' + 'a' * 252, ':1.' + 'a' * 253, '/' + 'a' * 300, 'a' * 255, 'a' * 256, ':.a', ':.1.2', 'a..b', '.a.b', 'a.b.']
+    # one character from outside the name alphabets (control characters - a trailing line feed included -, punctuation, letters
+    # and digits outside ASCII) at the front, in the middle and at the end of otherwise valid names of every kind
+    bases = ['/a', '/a/b_1', 'a.b', 'org.x.Y1', '_a._b', ':1.2', ':a-b.c', 'a-b.c', 'Foo', '_', 'a1', 'a' * 254, 'a.' + 'b' * 252]
+    foreign = ['\n', '\r', '\t', '\0', ' ', '\x7f', '@', '$', '+', '*', '\\', '"', "'", '~', '!', '#', '%', '=', ',', ';', '\u00e9', '\u0663', '\u00aa', '\u2028']
+    for b in bases:
+        for ch in foreign:
+            strings += [b + ch, ch + b, b[:1] + ch + b[1:], b[:-1] + ch + b[-1:], b + ch + ch]
     for s_ in strings:
         for kind, fn in vals:
             n += 1
@@ -226,7 +233,7 @@ def bounded(tier, seed):
 def run_bounded(tier, seed):
     n, f, inp = bounded(tier, seed)
     return {'tool': 'exhaustive short strings through the real validators and message constructors against the reference grammar',
-            'bound': 'every string of length <= %d over a 10-character alphabet (one character per class: / letter digit _ . : - non-ASCII letter space) x 5 validators; every third of them x 5 name fields x the constructors that take the field; length-limit and empty-element specials' % (5 if tier == 'thorough' else 4),
+            'bound': 'every string of length <= %d over a 10-character alphabet (one character per class: / letter digit _ . : - non-ASCII letter space) x 5 validators; every third of them x 5 name fields x the constructors that take the field; length-limit and empty-element specials; 13 valid names x 24 characters from outside the alphabets (control characters incl. line feed, punctuation, non-ASCII letters and digits) x 5 positions' % (5 if tier == 'thorough' else 4),
             'evaluations': n, 'failures': [] if not f else [{'function': 'txdbus.marshal validators / txdbus.message constructors', 'clause': 'grammar', 'input': inp, 'detail': f}]}
 
 
